@@ -5,13 +5,16 @@ Open Scope nat_scope.
 Definition evt_eqb (a b : evt) : bool :=
   match a, b with
   | Enter x, Enter y | Leave x, Leave y => x =? y
-  | Called x, Called y => String.eqb x y
+  | Called x, Called y | PostCalled x, PostCalled y => String.eqb x y
+  | PostEnter x, PostEnter y | PostLeave x, PostLeave y => x =? y
   | _, _ => false
   end.
+Definition is_primary (e : evt) : bool := match e with Enter _ | Leave _ | Called _ => true | _ => false end.
 
 Record c18case := {
   k_machine : machine;
   k_handlers : list (evt * list string);
+  k_one_shot : list evt;          (* handlers that make their requests only the first time they run *)
   k_init : nat;
   k_requests : list string;
   (* observed on the implementation *)
@@ -25,11 +28,11 @@ Definition handlers_of (tbl : list (evt * list string)) : handlers :=
   fun e => match find (fun p => evt_eqb (fst p) e) tbl with Some p => snd p | None => [] end.
 
 Definition init_state (m : machine) (s0 : nat) : sm :=
-  {| cur := s0; active := active_after (m_parent m) s0; log := [] |}.
+  {| cur := s0; active := active_after (m_parent m) s0; log := []; spent := [] |}.
 
 Definition model_agree18 (c : c18case) : N :=
   let m := k_machine c in
-  let '(st, rs) := run_seq m (handlers_of (k_handlers c)) 64 (init_state m (k_init c)) (k_requests c) in
+  let '(st, rs) := run_seq m (handlers_of (k_handlers c)) (fun e => existsb (evt_eqb e) (k_one_shot c)) 64 (init_state m (k_init c)) (k_requests c) in
   if negb (cur st =? k_cur c) then 10%N else
   if negb (list_eqb Bool.eqb (active st) (k_active c)) then 11%N else
   if negb (list_eqb evt_eqb (log st) (k_log c)) then 12%N else
@@ -70,7 +73,9 @@ Definition spec_holds18 (c : c18case) : N :=
     if negb (list_eqb Bool.eqb rs (k_raised c)) then 30%N else          (* allowed/disallowed verdicts *)
     if negb (s' =? k_cur c) then 31%N else                              (* reached exactly the destination *)
     if negb (list_eqb Bool.eqb (active_after (m_parent m) s') (k_active c)) then 32%N else
-    if exact && negb (same_multiset ev (k_log c)) then 33%N else
+    if exact && negb (same_multiset ev (filter is_primary (k_log c))) then 33%N else
+    (* every callback registered on an event ran: one later-callback record per event *)
+    if negb (same_multiset (map post_of (filter is_primary (k_log c))) (filter (fun e => negb (is_primary e)) (k_log c))) then 34%N else
     (* in every case: one called event per performed transition *)
     if negb (length (filter (fun e => match e with Called _ => true | _ => false end) (k_log c)) =? length (filter negb rs)) then 33%N else 0%N
   else if is_flat m && only_enter_called c && negb (existsb (fun b => b) (k_raised c)) then
@@ -79,7 +84,8 @@ Definition spec_holds18 (c : c18case) : N :=
     let nl := length (filter (fun e => match e with Leave _ => true | _ => false end) (k_log c)) in
     let ne := length (filter (fun e => match e with Enter _ => true | _ => false end) (k_log c)) in
     let nc := length (filter (fun e => match e with Called _ => true | _ => false end) (k_log c)) in
-    if (nl =? ne) && (ne =? nc) then 0%N else 33%N
+    if negb ((nl =? ne) && (ne =? nc)) then 33%N else
+    if negb (same_multiset (map post_of (filter is_primary (k_log c))) (filter (fun e => negb (is_primary e)) (k_log c))) then 34%N else 0%N
   else 1%N.
 
 Definition run_c18 (cs : list c18case) : list (N * N * N) * N * N :=
